@@ -118,118 +118,8 @@ def _r2_textual(ctx, nad):
 
 
 
-def run(ctx):
-    import sympy as sp
-    repo = ctx.repo
-    nad = repo.mod(NAD)
-    ctx.rule("R1", "RK4 tableau of the electronic sub-step (symbolic interpretation)")
-    ctx.rule("R2", "hop probabilities: clamp, normalise, single draw, cumulative comparison")
-    ctx.rule("R3", "energy-conserving velocity adjustment (expression algebra) and frustrated-hop purity")
-    ctx.rule("R4", "per-trajectory isolation: indexing discipline, row-0 broadcasts, batch-global scalars")
-    ctx.rule("R5", "scratch-buffer hygiene: reusable per-object buffers are re-initialised on every fetch (no state leaks between crossings/trajectories)")
-    ctx.rule("R6", "the adaptive sub-step controller sees the coupling at both ends of the nuclear step")
-    ctx.rule("R7", "Tully model surfaces: adiabatic gradients are the derivatives of the adiabatic energies, the coupling is d(theta)/dx, diabatic derivatives match their functions (expression algebra)")
-    ctx.rule("R8", "per-trajectory isolation of sizes and active states: no per-molecule quantity is taken from row 0 for the whole batch without a uniformity fact (representative-row rule)")
-    from .c05 import check_rep_rows
-    check_rep_rows(ctx, "R8")
-    _r7_tully_models(ctx, repo)
-    _r6_controller(ctx, nad)
-    _r5(ctx, nad)
-
-    # ------------------------------------------------------------------ R1
-    pe = nad.func("NonadiabaticDynamicsBase._propagate_electronic")
-    loops = [n for n in ast.walk(pe) if isinstance(n, ast.For) and any(callee_attr(c) == "rhs_amp" for c in calls_in(n))]
-    if len(loops) != 1:
-        raise AnalysisError("_propagate_electronic: RK4 loop not found")
-    loop = loops[0]
-    ctx.check(norm(loop.iter) == "range(nsub)", "R1", nad, loop, "_propagate_electronic", loop.iter, "sub-step loop runs nsub times", f"RK4 loop iterates {norm(loop.iter)}")
-    svar = loop.target.id
-    h, hbar, N = sp.symbols("h hbar N", positive=True)
-    S = sp.Symbol("s", nonnegative=True)
-    x, y, th = sp.symbols("x y th", real=True)
-    e0, de, D0, dD = sp.symbols("e0 de D0 dD", real=True)
-    FX, FY = sp.Function("FX"), sp.Function("FY")
-    funcs = torch_funcs()
-    pre = {"dt_total": h * N, "nsub": N, "HBAR_EV_FS": hbar, "e0": e0, "de": de, "nd_old": D0, "dnd": dD, "x": x, "y": y, "th": th, svar: S}
-    # pre-loop scalar definitions (inv_nsub, dt_sub, ...)
-    pre_stmts = []
-    for st in pe.body:
-        if st is loop:
-            break
-        if isinstance(st, ast.Assign) and len(st.targets) == 1 and isinstance(st.targets[0], ast.Name) and st.targets[0].id in (
-                "inv_nsub", "dt_sub", "half_dt_sub", "dt_over_hbar", "half_dt_over_hbar", "one_sixth_dt"):
-            pre_stmts.append(st)
-    funcs["float"] = lambda a, n: a[0]
-    env = _sym_block(pre_stmts, dict(pre), funcs, {})
-    need = ["inv_nsub", "dt_sub"]
-    if any(k not in env for k in need):
-        raise AnalysisError("_propagate_electronic: sub-step constants not found")
-    ctx.check(sp.simplify(env["dt_sub"] - h) == 0 and sp.simplify(env["inv_nsub"] - 1 / N) == 0, "R1", nad, pe, "_propagate_electronic", "dt_sub",
-              "sub-step length = dt/nsub (sub-steps tile the nuclear step)", f"dt_sub = {env.get('dt_sub')}, inv_nsub = {env.get('inv_nsub')}")
-    opaque = {"rhs_amp": lambda a: (FX(*a), FY(*a))}
-    env = _sym_block(loop.body, env, funcs, opaque)
-    k = {}
-    try:
-        tau = S / N
-        Dt = lambda c: D0 + (tau + c / N) * dD
-        th_s = {i: sp.Symbol(f"theta_stage{i}") for i in (2, 3, 4)}
-        # recover the stage thetas as coded (not an obligation, see explanation)
-        code_th = {2: env.get("th2"), 3: env.get("th3"), 4: env.get("th4")}
-        k1x, k1y = FX(x, y, th, Dt(0)), FY(x, y, th, Dt(0))
-        k2x = FX(x + h / 2 * k1x, y + h / 2 * k1y, code_th[2], Dt(sp.Rational(1, 2)))
-        k2y = FY(x + h / 2 * k1x, y + h / 2 * k1y, code_th[2], Dt(sp.Rational(1, 2)))
-        k3x = FX(x + h / 2 * k2x, y + h / 2 * k2y, code_th[3], Dt(sp.Rational(1, 2)))
-        k3y = FY(x + h / 2 * k2x, y + h / 2 * k2y, code_th[3], Dt(sp.Rational(1, 2)))
-        k4x = FX(x + h * k3x, y + h * k3y, code_th[4], Dt(1))
-        k4y = FY(x + h * k3x, y + h * k3y, code_th[4], Dt(1))
-        want = {"dx1": k1x, "dy1": k1y, "dx2": k2x, "dy2": k2y, "dx3": k3x, "dy3": k3y, "dx4": k4x, "dy4": k4y}
-        for nm, w in want.items():
-            got = env.get(nm)
-            ok = got is not None and sp.simplify(got - w) == 0
-            ctx.check(ok, "R1", nad, loop, "_propagate_electronic", nm,
-                      f"stage derivative {nm} is evaluated at the classical RK4 stage point / coupling time",
-                      f"RK4 stage {nm} is evaluated at the wrong point: got {got}")
-        newx, newy = env.get("x"), env.get("y")
-        wx = x + h / 6 * (k1x + 2 * k2x + 2 * k3x + k4x)
-        wy = y + h / 6 * (k1y + 2 * k2y + 2 * k3y + k4y)
-        ctx.check(newx is not None and sp.simplify(newx - wx) == 0, "R1", nad, loop, "_propagate_electronic", "x update",
-                  "x <- x + h/6 (k1 + 2k2 + 2k3 + k4)", f"RK4 combination for x is {newx}")
-        ctx.check(newy is not None and sp.simplify(newy - wy) == 0, "R1", nad, loop, "_propagate_electronic", "y update",
-                  "y <- y + h/6 (k1 + 2k2 + 2k3 + k4)", f"RK4 combination for y is {newy}")
-        newth = env.get("th")
-        e_mid = e0 + (tau + sp.Rational(1, 2) / N) * de
-        ctx.check(newth is not None and sp.simplify(newth - (th - e_mid * h / hbar)) == 0, "R1", nad, loop, "_propagate_electronic", "theta update",
-                  "phase advances by -E(midpoint) h / hbar (exact for linearly interpolated energies)", f"phase update is {newth}")
-        ctx.observe("RK4 stage phases as coded: th2 = %s, th3 = %s, th4 = %s (model choice; not an obligation)" % (code_th[2], code_th[3], code_th[4]))
-    except AnalysisError as e:
-        raise AnalysisError(f"_propagate_electronic: cannot interpret RK4 body: {e}")
-    # amplitudes written back after the loop
-    stores = [st for st in pe.body if isinstance(st, ast.Assign) and isinstance(st.targets[0], ast.Subscript) and norm(st.targets[0].value) == "amp"]
-    ok = [norm(s.targets[0].slice) + "=" + norm(s.value) for s in stores]
-    ctx.check(sorted(ok) == sorted(["(..., 0)=x", "(..., 1)=y", "(..., 2)=th"]), "R1", nad, pe, "_propagate_electronic", "amp[...] stores",
-              "propagated x, y, theta are stored back into the amplitude buffer", f"amplitude write-back is {ok}")
-
-    # ------------------------------------------------------------------ R2
-    ah = nad.func("SurfaceHoppingDynamics._attempt_hop")
-    # decided by value: the routine is interpreted (sa.npsym) on exact-rational batches designed to exercise every decision of the fewest-switches selection on both sides and
-    # compared with the documented rule; the shape-based form is consulted only when the routine cannot be interpreted
-    from ..assembly import interpreted_hop_selection
-    try:
-        ok, msg, facts = interpreted_hop_selection(ctx.repo)
-        interpreted = True
-    except AnalysisError as e:
-        ctx.note(f"_attempt_hop could not be interpreted ({str(e)[:100]}); the shape-based form of R2 is used")
-        interpreted = False
-    if interpreted:
-        ctx.check(ok, "R2", nad, ah, "SurfaceHoppingDynamics._attempt_hop", "fewest-switches selection",
-                  "hop targets equal the fewest-switches rule on %d interpreted requests (%d hops, %d non-hops): rates = active row of the hop integral / floored active population, "
-                  "clamped at zero, renormalised only when the row sum exceeds one, one uniform draw per trajectory from the global generator, target = first state whose "
-                  "cumulative probability reaches the draw" % (facts["requests"], facts["hops"], facts["no_hops"]),
-                  msg)
-    else:
-        _r2_textual(ctx, nad)
-
-    # ------------------------------------------------------------------ R3
+def _r3_rescale_symbolic(ctx, nad):
+    """symbolic reading of the rescale routine (sa.tensorsym); consulted only when the routine cannot be interpreted at exact points"""
     rv = nad.func("SurfaceHoppingDynamics._rescale_velocity_along_nac")
     # name-independent decision: the function body is re-read as equations over small symbolic arrays (2 atoms x 3 components) and
     # the stored velocities are checked against the physics: (i) v' - v = alpha * d / m with ONE scalar alpha, (ii) the kinetic
@@ -366,7 +256,10 @@ def run(ctx):
         if any(any(a.startswith(rn + "<") for rn in rad_names) for a, _ in t) or (not rad_names and fr is false_rets[-1]):
             ctx.check(any((f"{rn}<=0", True) in t or (f"{rn}<0", True) in t for rn in rad_names), "R3", nad, fr.stmt, "SurfaceHoppingDynamics._rescale_velocity_along_nac", fr.stmt,
                       "hop is frustrated exactly when the radicand is not positive", f"frustration test is {t}")
-    # call site: dE = E[target] - E[current]; state switched only on success
+
+
+def _hop_loop_shape_based(ctx, nad):
+    """shape-based reading of the hop loop (call-site arguments, success-only state switch, id / position indexing); consulted only when the routine cannot be interpreted"""
     au = nad.func("SurfaceHoppingDynamics._after_electronic_update")
     dd2 = local_defs(au)
     de_def = dd2.get("dE", [])
@@ -391,7 +284,6 @@ def run(ctx):
             ctx.check(not bad, "R3", nad, iff, "SurfaceHoppingDynamics._after_electronic_update", "else: (frustrated)",
                       "frustrated branch leaves active state, velocities and hold-off untouched", f"frustrated branch writes `{short(bad[0], 50) if bad else ''}`")
 
-    # ------------------------------------------------------------------ R4
     # (i) hop loop indexing discipline
     hl = [l for l in ast.walk(au) if isinstance(l, ast.For) and "hop_idx_list" in norm(l.iter)]
     if len(hl) != 1 or not (isinstance(hl[0].target, ast.Tuple) and len(hl[0].target.elts) == 2):
@@ -411,6 +303,157 @@ def run(ctx):
     ctx.check(not bad and n_idx >= 6, "R4", nad, bad[0] if bad else hl[0], "SurfaceHoppingDynamics._after_electronic_update", bad[0] if bad else hl[0].target,
               "in the hop loop whole-batch tensors are indexed by the trajectory id and the selected-target list by its position",
               f"`{norm(bad[0]) if bad else ''}` mixes up trajectory id and position in the hop list: one trajectory's hop uses another's data")
+
+
+def run(ctx):
+    import sympy as sp
+    repo = ctx.repo
+    nad = repo.mod(NAD)
+    ctx.rule("R1", "RK4 tableau of the electronic sub-step (symbolic interpretation)")
+    ctx.rule("R2", "hop probabilities: clamp, normalise, single draw, cumulative comparison")
+    ctx.rule("R3", "energy-conserving velocity adjustment (expression algebra) and frustrated-hop purity")
+    ctx.rule("R4", "per-trajectory isolation: indexing discipline, row-0 broadcasts, batch-global scalars")
+    ctx.rule("R5", "scratch-buffer hygiene: reusable per-object buffers are re-initialised on every fetch (no state leaks between crossings/trajectories)")
+    ctx.rule("R6", "the adaptive sub-step controller sees the coupling at both ends of the nuclear step")
+    ctx.rule("R7", "Tully model surfaces: adiabatic gradients are the derivatives of the adiabatic energies, the coupling is d(theta)/dx, diabatic derivatives match their functions (expression algebra)")
+    ctx.rule("R8", "per-trajectory isolation of sizes and active states: no per-molecule quantity is taken from row 0 for the whole batch without a uniformity fact (representative-row rule)")
+    from .c05 import check_rep_rows
+    check_rep_rows(ctx, "R8")
+    _r7_tully_models(ctx, repo)
+    _r6_controller(ctx, nad)
+    _r5(ctx, nad)
+
+    # ------------------------------------------------------------------ R1
+    pe = nad.func("NonadiabaticDynamicsBase._propagate_electronic")
+    loops = [n for n in ast.walk(pe) if isinstance(n, ast.For) and any(callee_attr(c) == "rhs_amp" for c in calls_in(n))]
+    if len(loops) != 1:
+        raise AnalysisError("_propagate_electronic: RK4 loop not found")
+    loop = loops[0]
+    ctx.check(norm(loop.iter) == "range(nsub)", "R1", nad, loop, "_propagate_electronic", loop.iter, "sub-step loop runs nsub times", f"RK4 loop iterates {norm(loop.iter)}")
+    svar = loop.target.id
+    h, hbar, N = sp.symbols("h hbar N", positive=True)
+    S = sp.Symbol("s", nonnegative=True)
+    x, y, th = sp.symbols("x y th", real=True)
+    e0, de, D0, dD = sp.symbols("e0 de D0 dD", real=True)
+    FX, FY = sp.Function("FX"), sp.Function("FY")
+    funcs = torch_funcs()
+    pre = {"dt_total": h * N, "nsub": N, "HBAR_EV_FS": hbar, "e0": e0, "de": de, "nd_old": D0, "dnd": dD, "x": x, "y": y, "th": th, svar: S}
+    # pre-loop scalar definitions (inv_nsub, dt_sub, ...)
+    pre_stmts = []
+    for st in pe.body:
+        if st is loop:
+            break
+        if isinstance(st, ast.Assign) and len(st.targets) == 1 and isinstance(st.targets[0], ast.Name) and st.targets[0].id in (
+                "inv_nsub", "dt_sub", "half_dt_sub", "dt_over_hbar", "half_dt_over_hbar", "one_sixth_dt"):
+            pre_stmts.append(st)
+    funcs["float"] = lambda a, n: a[0]
+    env = _sym_block(pre_stmts, dict(pre), funcs, {})
+    need = ["inv_nsub", "dt_sub"]
+    if any(k not in env for k in need):
+        raise AnalysisError("_propagate_electronic: sub-step constants not found")
+    ctx.check(sp.simplify(env["dt_sub"] - h) == 0 and sp.simplify(env["inv_nsub"] - 1 / N) == 0, "R1", nad, pe, "_propagate_electronic", "dt_sub",
+              "sub-step length = dt/nsub (sub-steps tile the nuclear step)", f"dt_sub = {env.get('dt_sub')}, inv_nsub = {env.get('inv_nsub')}")
+    opaque = {"rhs_amp": lambda a: (FX(*a), FY(*a))}
+    env = _sym_block(loop.body, env, funcs, opaque)
+    k = {}
+    try:
+        tau = S / N
+        Dt = lambda c: D0 + (tau + c / N) * dD
+        th_s = {i: sp.Symbol(f"theta_stage{i}") for i in (2, 3, 4)}
+        # recover the stage thetas as coded (not an obligation, see explanation)
+        code_th = {2: env.get("th2"), 3: env.get("th3"), 4: env.get("th4")}
+        k1x, k1y = FX(x, y, th, Dt(0)), FY(x, y, th, Dt(0))
+        k2x = FX(x + h / 2 * k1x, y + h / 2 * k1y, code_th[2], Dt(sp.Rational(1, 2)))
+        k2y = FY(x + h / 2 * k1x, y + h / 2 * k1y, code_th[2], Dt(sp.Rational(1, 2)))
+        k3x = FX(x + h / 2 * k2x, y + h / 2 * k2y, code_th[3], Dt(sp.Rational(1, 2)))
+        k3y = FY(x + h / 2 * k2x, y + h / 2 * k2y, code_th[3], Dt(sp.Rational(1, 2)))
+        k4x = FX(x + h * k3x, y + h * k3y, code_th[4], Dt(1))
+        k4y = FY(x + h * k3x, y + h * k3y, code_th[4], Dt(1))
+        want = {"dx1": k1x, "dy1": k1y, "dx2": k2x, "dy2": k2y, "dx3": k3x, "dy3": k3y, "dx4": k4x, "dy4": k4y}
+        for nm, w in want.items():
+            got = env.get(nm)
+            ok = got is not None and sp.simplify(got - w) == 0
+            ctx.check(ok, "R1", nad, loop, "_propagate_electronic", nm,
+                      f"stage derivative {nm} is evaluated at the classical RK4 stage point / coupling time",
+                      f"RK4 stage {nm} is evaluated at the wrong point: got {got}")
+        newx, newy = env.get("x"), env.get("y")
+        wx = x + h / 6 * (k1x + 2 * k2x + 2 * k3x + k4x)
+        wy = y + h / 6 * (k1y + 2 * k2y + 2 * k3y + k4y)
+        ctx.check(newx is not None and sp.simplify(newx - wx) == 0, "R1", nad, loop, "_propagate_electronic", "x update",
+                  "x <- x + h/6 (k1 + 2k2 + 2k3 + k4)", f"RK4 combination for x is {newx}")
+        ctx.check(newy is not None and sp.simplify(newy - wy) == 0, "R1", nad, loop, "_propagate_electronic", "y update",
+                  "y <- y + h/6 (k1 + 2k2 + 2k3 + k4)", f"RK4 combination for y is {newy}")
+        newth = env.get("th")
+        e_mid = e0 + (tau + sp.Rational(1, 2) / N) * de
+        ctx.check(newth is not None and sp.simplify(newth - (th - e_mid * h / hbar)) == 0, "R1", nad, loop, "_propagate_electronic", "theta update",
+                  "phase advances by -E(midpoint) h / hbar (exact for linearly interpolated energies)", f"phase update is {newth}")
+        ctx.observe("RK4 stage phases as coded: th2 = %s, th3 = %s, th4 = %s (model choice; not an obligation)" % (code_th[2], code_th[3], code_th[4]))
+    except AnalysisError as e:
+        raise AnalysisError(f"_propagate_electronic: cannot interpret RK4 body: {e}")
+    # amplitudes written back after the loop
+    stores = [st for st in pe.body if isinstance(st, ast.Assign) and isinstance(st.targets[0], ast.Subscript) and norm(st.targets[0].value) == "amp"]
+    ok = [norm(s.targets[0].slice) + "=" + norm(s.value) for s in stores]
+    ctx.check(sorted(ok) == sorted(["(..., 0)=x", "(..., 1)=y", "(..., 2)=th"]), "R1", nad, pe, "_propagate_electronic", "amp[...] stores",
+              "propagated x, y, theta are stored back into the amplitude buffer", f"amplitude write-back is {ok}")
+
+    # ------------------------------------------------------------------ R2
+    ah = nad.func("SurfaceHoppingDynamics._attempt_hop")
+    # decided by value: the routine is interpreted (sa.npsym) on exact-rational batches designed to exercise every decision of the fewest-switches selection on both sides and
+    # compared with the documented rule; the shape-based form is consulted only when the routine cannot be interpreted
+    from ..assembly import interpreted_hop_selection
+    try:
+        ok, msg, facts = interpreted_hop_selection(ctx.repo)
+        interpreted = True
+    except AnalysisError as e:
+        ctx.note(f"_attempt_hop could not be interpreted ({str(e)[:100]}); the shape-based form of R2 is used")
+        interpreted = False
+    if interpreted:
+        ctx.check(ok, "R2", nad, ah, "SurfaceHoppingDynamics._attempt_hop", "fewest-switches selection",
+                  "hop targets equal the fewest-switches rule on %d interpreted requests (%d hops, %d non-hops): rates = active row of the hop integral / floored active population, "
+                  "clamped at zero, renormalised only when the row sum exceeds one, one uniform draw per trajectory from the global generator, target = first state whose "
+                  "cumulative probability reaches the draw" % (facts["requests"], facts["hops"], facts["no_hops"]),
+                  msg)
+    else:
+        _r2_textual(ctx, nad)
+
+    # ------------------------------------------------------------------ R3
+    rv = nad.func("SurfaceHoppingDynamics._rescale_velocity_along_nac")
+    # decided by value: the routine is interpreted (sa.npsym) at exact rational points for downward, allowed upward and frustrated hops (both state orders, a batch of two
+    # trajectories with a padding atom); the symbolic reading is consulted only when it cannot be interpreted
+    from ..assembly import interpreted_hop_rescale
+    try:
+        ok3, msg3, facts3 = interpreted_hop_rescale(ctx.repo, n_points=6)
+        interp3 = True
+    except AnalysisError as e:
+        ctx.note(f"_rescale_velocity_along_nac could not be interpreted ({str(e)[:100]}); symbolic reading used")
+        interp3 = False
+    if interp3:
+        ctx.check(ok3, "R3", nad, rv, "SurfaceHoppingDynamics._rescale_velocity_along_nac", "velocity adjustment",
+                  "accepted hops (%d requests): v' - v = alpha d/m with one alpha on the hopping trajectory only, KES dE_kin + dE = 0 exactly, smaller root; frustrated hops "
+                  "(%d requests): returns False, velocities untouched; padding atoms never move" % (facts3["accepted"], facts3["frustrated"]), msg3)
+        for _ in range(5):
+            ctx.ok("R3", f"{nad.rel}:{rv.lineno} SurfaceHoppingDynamics._rescale_velocity_along_nac", "decided with the interpreted requests", nontrivial=False)
+    else:
+        _r3_rescale_symbolic(ctx, nad)
+    # the bookkeeping of the hop loop is decided by value (sa.npsym: four trajectories, preset proposals / verdicts); the shape-based reading is the fallback
+    au = nad.func("SurfaceHoppingDynamics._after_electronic_update")
+    from ..assembly import interpreted_hop_bookkeeping
+    try:
+        okb, msgb, factsb = interpreted_hop_bookkeeping(ctx.repo)
+        interpb = True
+    except AnalysisError as e:
+        ctx.note(f"_after_electronic_update could not be interpreted ({str(e)[:100]}); shape-based reading of the hop loop used")
+        interpb = False
+    if interpb:
+        for rid_ in ("R3", "R4"):
+            ctx.check(okb, rid_, nad, au, "SurfaceHoppingDynamics._after_electronic_update", "hop loop",
+                      "hop loop (%d interpreted scenarios): each hopping trajectory is adjusted with its own (from, to, dE, index); only an accepted hop switches the surface and "
+                      "starts the hold-off; frustrated and non-hopping trajectories are untouched; reported potential follows the active surface" % factsb["scenarios"], msgb)
+        for _ in range(4):
+            ctx.ok("R3", f"{nad.rel}:{au.lineno} SurfaceHoppingDynamics._after_electronic_update", "decided with the interpreted scenarios", nontrivial=False)
+    else:
+        _hop_loop_shape_based(ctx, nad)
+    # ------------------------------------------------------------------ R4
     # (ii) row-0 broadcasts of per-trajectory state
     n_b = 0
     for rel in (NAD, TULLY):
